@@ -44,7 +44,7 @@ Idle == [s |-> "idle", id |-> 0]
 
 Expected(b) ==
     CASE b = "equal" -> "Equal" [] b = "different" -> "Different" [] b = "bare" -> "Equal"
-      [] b \in {"playerRaises", "extractorRaises", "comparatorRaises"} -> "Failure"
+      [] b \in {"playerRaises", "extractorRaises", "comparatorRaises", "dataRaises"} -> "Failure"
       \* the worker answers, but the parent cannot rebuild the answer it takes from the queue (results.get raises):
       \* a failure of that recording only; the worker is alive and idle and keeps its age
       [] b = "unreadable" -> "Failure"
